@@ -1829,7 +1829,16 @@ impl Translator {
             IntrinsicOperation::ArrayLength => 1,
             IntrinsicOperation::ArrayPop => 1,
             IntrinsicOperation::ChannelRead => 1,
-            IntrinsicOperation::ChannelWrite => 2,
+            IntrinsicOperation::ChannelWrite => {
+                // TODO: code duplication, see inlining of channel.write()
+                let Some(SolvedType::Function(args, _)) = self.get_ty(mono, func_node.clone())
+                else {
+                    unreachable!()
+                };
+                // second arg is element being written
+                let arg_ty = &args[1];
+                if *arg_ty == SolvedType::Void { 1 } else { 2 }
+            }
             IntrinsicOperation::Panic => 1,
         };
         self.wrapper_header(st, nargs, for_function_body);
@@ -2050,8 +2059,31 @@ impl Translator {
                     self.emit(st, Instr::Pop);
                 }
             }
-            IntrinsicOperation::ChannelRead => self.emit(st, Instr::ChannelRead),
-            IntrinsicOperation::ChannelWrite => self.emit(st, Instr::ChannelWrite),
+            IntrinsicOperation::ChannelRead => {
+                // TODO: code duplication, see inlining of channel.read()
+                self.emit(st, Instr::ChannelRead);
+                let SolvedType::Function(_, ret_ty) = self.get_ty(mono, func_node.clone()).unwrap()
+                else {
+                    unreachable!()
+                };
+                // channels of void use dummy values
+                if *ret_ty == SolvedType::Void {
+                    self.emit(st, Instr::Pop);
+                }
+            }
+            IntrinsicOperation::ChannelWrite => {
+                // TODO: code duplication, see inlining of channel.write()
+                let Some(SolvedType::Function(args, _)) = self.get_ty(mono, func_node.clone())
+                else {
+                    unreachable!()
+                };
+                // channels of void use dummy values
+                let arg_ty = &args[1];
+                if *arg_ty == SolvedType::Void {
+                    self.emit(st, Instr::PushNil(1));
+                }
+                self.emit(st, Instr::ChannelWrite);
+            }
             IntrinsicOperation::Panic => {
                 self.emit(st, Instr::Panic);
             }
